@@ -117,7 +117,7 @@ LeafPaths(tree, depth)  == PathsAt(tree, <<>>, depth - 1)
 LegalSP(e, c, sp) == sp = -1 \/ (sp = 0 /\ Len(e) > 0) \/ (sp > 0 /\ sp < Len(e) /\ e[sp + 1][1] <= c)
 
 Enabled(tree, depth, a) ==
-  CASE a.op \in {"ref"}   -> Len(a.pt) \in 1..depth
+  CASE a.op \in {"ref"}   -> Len(a.pt) \in 1..depth /\ (a.sp = -1 \/ (Len(a.pt) = 1 /\ tree.k = "F" /\ LegalSP(tree.e, a.pt[1], a.sp)))     \* a search-start shortcut at the top level only
     [] a.op = "write"      -> Len(a.pt) = depth
     [] a.op = "hwrite"     -> Len(a.pt) = depth /\ AtPath(tree, a.pt).k = "L"
     [] a.op = "get"        -> /\ a.path \in FiberPaths(tree, depth) /\ Len(a.path) + Len(a.pt) <= depth /\ Len(a.pt) >= 1
